@@ -121,7 +121,7 @@ func (fv *FnV) evalConversion(st *State, call *ast.CallExpr, to types.Type) Val 
 		}
 		// int -> float64 rounds to nearest: uninterpreted i2f with the axioms below
 		// (exact up to 2^53, monotone, relative error 2^-53)
-		fv.declareI2F()
+		fv.tag("i2f-axioms")
 		if fv.i2fCache == nil {
 			fv.i2fCache = map[string]string{}
 		}
@@ -129,11 +129,24 @@ func (fv *FnV) evalConversion(st *State, call *ast.CallExpr, to types.Type) Val 
 			return Val{f, to}
 		}
 		x := fv.name("iv", v.T, "Int")
+		// cut: when the operand is provably within +-2^53 the conversion is exact
+		if fv.provable(st, fmt.Sprintf("(and (<= (- 9007199254740992) %s) (<= %s 9007199254740992))", x, x)) {
+			f := fmt.Sprintf("(to_real %s)", x)
+			fv.i2fCache[v.T] = f
+			return Val{f, to}
+		}
 		f := fv.fresh("i2f", "Real")
-		// ground instances of the i2f axioms for this operand
-		fv.decls = append(fv.decls, fmt.Sprintf("(assert (= %s (i2f %s)))", f, x))
+		// Ground facts for this operand: exact up to 2^53, sign-preserving, relative error
+		// at most 2^-53, monotone w.r.t. earlier conversions.
 		fv.decls = append(fv.decls, fmt.Sprintf("(assert (=> (and (<= (- 9007199254740992) %s) (<= %s 9007199254740992)) (= %s (to_real %s))))", x, x, f, x))
 		fv.decls = append(fv.decls, fmt.Sprintf("(assert (and (=> (>= %s 0) (>= %s 0.0)) (=> (<= %s 0) (<= %s 0.0)) (=> (>= %s 1) (>= %s 1.0)) (=> (<= %s (- 1)) (<= %s (- 1.0)))))", x, f, x, f, x, f, x, f))
+		fv.decls = append(fv.decls, fmt.Sprintf("(assert (and (<= (* 9007199254740992.0 (- %s (to_real %s))) (ite (>= %s 0) (to_real %s) (to_real (- %s)))) (<= (* 9007199254740992.0 (- (to_real %s) %s)) (ite (>= %s 0) (to_real %s) (to_real (- %s))))))", f, x, x, x, x, x, f, x, x, x))
+		if len(fv.i2fList) < 10 {
+			for _, pr := range fv.i2fList {
+				fv.decls = append(fv.decls, fmt.Sprintf("(assert (and (=> (<= %s %s) (<= %s %s)) (=> (<= %s %s) (<= %s %s))))", pr[0], x, pr[1], f, x, pr[0], f, pr[1]))
+			}
+		}
+		fv.i2fList = append(fv.i2fList, [2]string{x, f})
 		fv.i2fCache[v.T] = f
 		return Val{f, to}
 	case isIntType(to) && isFloatType(from):
